@@ -26,6 +26,13 @@ def run(idx, rep, tier):
     ok, clip_txt = clip_certificate(fact, a)
     rep.decide(ok, "loop-cap", "arnoldi_fact:clip", f"max_iters is clipped to `{clip_txt}`" + ("" if ok else f"; required min(max_iters, {a}.shape[0])"),
                detail="" if ok else "clip", locs=[idx.loc(fact.module, fact.node)])
+    # the driver allocates the buffers: they must be sized by the clipped cap as well -- the loop stops after n steps, and columns /
+    # rows of H beyond that stay zero, which arnoldi_eigs would diagonalise as spurious zero eigenvalues of A
+    okd, clip_d = clip_certificate(arnoldi, arnoldi.params[0])
+    rep.decide(okd, "loop-cap", "arnoldi:alloc-clip", (f"the driver clips the cap before it allocates the buffers: `{clip_d}`" if okd else
+               f"the buffers are allocated for the requested max_iters ({clip_d}) while the loop inside {fact.short} stops at min(max_iters, n): for max_iters > n the zero padding "
+               "of H is part of the returned factorisation and arnoldi_eigs returns max_iters - n spurious zero eigenvalues"), detail="" if okd else "alloc-clip",
+               locs=[idx.loc(arnoldi.module, arnoldi.node)])
     loops = [l for l in lp.find_loops(idx, fact) if l.kind != "for"]
     if not loops:
         rep.missing_anchor("while loop of arnoldi_fact")
@@ -99,13 +106,24 @@ def run(idx, rep, tier):
             hd[-2] == {cap: 1, 1: 1} and hd[-1] == {cap: 1} and qd[-1] == {cap: 1, 1: 1}
         rep.decide(ok, "buffers", "init_arnoldi", f"H = {bufs['H'][0]}{bufs['H'][1]}, Q = {bufs['Q'][0]}{bufs['Q'][1]}" + ("" if ok else f"; required zero-initialised (..., {cap}+1, {cap}) and (..., {cap}+1)"),
                    detail="" if ok else "buffers", locs=[idx.loc(init.module, init.node)])
-        # arnoldi passes the *requested* cap (not the clipped one) to init_arnoldi
-        calls = [c for c in df.calls(arnoldi.node) if nospace(c.func) == "init_arnoldi"]
-        kw = {k.arg: nospace(k.value) for c in calls for k in c.keywords}
-        okc = bool(calls) and (kw.get("max_iters") == "max_iters" or (len(calls[0].args) > 2 and nospace(calls[0].args[2]) == "max_iters")) and \
-            not any(isinstance(v, ast.Call) and nospace(v.func) == "min" for v, p, st in df.assignments(arnoldi.node).get("max_iters", []))
-        rep.decide(okc, "buffers", "arnoldi:requested-cap", "buffers are sized by the requested iteration cap (extra rows/columns stay zero)" if okc else
-                   "buffers are not sized by the requested cap", detail="" if okc else "cap", locs=[idx.loc(arnoldi.module, arnoldi.node)])
+        # the driver sizes the buffers with the cap it runs the loop with: the value handed to the allocator as `max_iters` is the value
+        # handed to the factorisation (a smaller buffer is written out of bounds, a larger one leaves zero padding in the result)
+        def cap_arg(callee_fi, call):
+            return df.bind_call(call, callee_fi.params).get("max_iters")
+        c_init = [c for c in df.calls(arnoldi.node) if idx.resolve_expr(arnoldi.module, c.func, arnoldi) is not None
+                  and getattr(idx.resolve_expr(arnoldi.module, c.func, arnoldi), "kind", None) == "funcs" and idx.resolve_expr(arnoldi.module, c.func, arnoldi).val[-1] is init]
+        c_fact = [c for c in df.calls(arnoldi.node) if idx.resolve_expr(arnoldi.module, c.func, arnoldi) is not None
+                  and getattr(idx.resolve_expr(arnoldi.module, c.func, arnoldi), "kind", None) == "funcs" and idx.resolve_expr(arnoldi.module, c.func, arnoldi).val[-1] is fact]
+        e1 = cap_arg(init, c_init[0]) if c_init else None
+        e2 = cap_arg(fact, c_fact[0]) if c_fact else None
+        if e1 is None or e2 is None:
+            rep.undecided("buffers", "arnoldi:same-cap", "calls of the allocator / the factorisation with a max_iters argument not found", locs=[idx.loc(arnoldi.module, arnoldi.node)])
+        else:
+            v1 = df.resolve_value(arnoldi.node, e1) if isinstance(e1, ast.Name) else e1
+            v2 = df.resolve_value(arnoldi.node, e2) if isinstance(e2, ast.Name) else e2
+            okc = nospace(e1) == nospace(e2) or nospace(v1) == nospace(v2)
+            rep.decide(okc, "buffers", "arnoldi:same-cap", f"the allocator receives `{nospace(e1)}` and the factorisation `{nospace(e2)}` as cap" +
+                       ("" if okc else ": the buffers and the loop disagree on the number of steps"), detail="" if okc else "cap", locs=[idx.loc(arnoldi.module, arnoldi.node)])
     # ---- body: sub-diagonal = norm; normalisation floor depends on tol
     # the loop body is whatever function is handed to the loop runner as body_fun (not recognised by its name)
     _l = [l_ for l_ in lp.find_loops(idx, fact) if l_.kind != "for"]
@@ -121,8 +139,10 @@ def run(idx, rep, tier):
                     and len(st.targets[0].elts) > 1 and isinstance(st.targets[0].elts[1], ast.Name):
                 hname = st.targets[0].elts[1].id
         allw = norm_written(body)
+        # the column stored into H: a named vector (then its own `+1` write is looked up by that name) or a write nested in place
         cols = {nospace(w[2].args[1]) for w in allw if w[0] == hname and isinstance(w[2].args[1], ast.Name)}
-        writes = [w for w in allw if w[0] in cols and nospace(w[2].args[-1]).endswith("+1")]
+        nested = {id(w[2].args[1]) for w in allw if w[0] == hname and isinstance(w[2].args[1], ast.Call)}
+        writes = [w for w in allw if (w[0] in cols or id(w[2]) in nested) and nospace(w[2].args[-1]).endswith("+1")]
         if writes:
             ok = all(w[1] for w in writes)
             rep.decide(ok, "nonneg-subdiagonal", "arnoldi_fact:subdiagonal", f"sub-diagonal entry written: `{ast.unparse(writes[0][2].args[1])[:40]}`" + ("" if ok else ": must be a norm"),
@@ -227,7 +247,7 @@ def run(idx, rep, tier):
     for f_, ok_, text_, node_ in lp.runner_transparency(idx):
         rep.decide(ok_, "runner-transparency", "while_loop_winfo", text_, detail="" if ok_ else "extra-exit", locs=[idx.loc(f_.module, node_)])
     rep.floor("buffer-dtype", 2)
-    rep.floor("loop-cap", 2)
+    rep.floor("loop-cap", 3)
     rep.floor("batch-quantifier", 1)
     rep.floor("basis-aliasing", 1)
     rep.floor("buffers", 2)
